@@ -124,7 +124,8 @@ def trace_state(model):
 
 
 def trace_fingerprint(model):
-    return [(list(n_), [str(x) for x in i_], None if v_ is None else v_.tolist()) for n_, i_, v_ in trace_state(model)]
+    # (values as text: a NaN snapshot must compare equal to itself)
+    return [(list(n_), [str(x) for x in i_], None if v_ is None else repr(v_.tolist())) for n_, i_, v_ in trace_state(model)]
 
 
 def check_case(case):
